@@ -55,6 +55,9 @@ func TestC20_Behaviour(t *testing.T) {
 				if a.kind == "mon" {
 					ra, na, _, oa, _ := a.cb.snapshot()
 					rb, nb, _, ob, _ := b.cb.snapshot()
+					if a.cb.nilInit > 0 {
+						wt.fail("%s: the listing handed to OnInitialize of typed monitor %s contains %d nil entries", what, a.path(), a.cb.nilInit)
+					}
 					if oa != "" || ob != "" {
 						wt.fail("%s: monitor %s: %s%s", what, a.path(), oa, ob)
 					}
